@@ -1,7 +1,11 @@
 """C01 — Track data written through a snapshot reads back unchanged.  Assembled from a schema-1.x part and a schema-2.x part."""
 from props import _combine
 
-_combine.install(globals(), "C01", ["C01_v1", "C01_v2"], dict(
+_combine.install(globals(), "C01", [
+    "C01_v1",
+    "C01_v2",
+    "C01_lib2",
+], dict(
     text="",
     note="see design/C01.md",
     technique="Lean 4 round-trip / lens theorems over executable models of both schema generations + "
